@@ -847,6 +847,11 @@ impl SvgElement {
                 if let (Some(y1), Some(y2)) = (y1, y2) {
                     height = Some((y2 - y1).abs());
                 }
+                // a line given only one extent is horizontal or vertical
+                if width.is_some() != height.is_some() {
+                    width.get_or_insert(0.);
+                    height.get_or_insert(0.);
+                }
             }
             _ => {}
         }
